@@ -13,7 +13,8 @@ let n_of_int i = if i <= 0 then M.N0 else M.Npos (pos_of_int i)
 (* ---- trees ---- *)
 let pt k pl cs = M.PoolT (k, List.map n_of_int pl, cs)
 let text k = pt M.pk_text [k] []
-let var x = pt M.pk_var [x] []
+let var x = pt M.pk_var [x; 0] []
+let varf x = pt M.pk_var [x; 1] []      (* printed through the identity filter verifid *)
 let fail_ = pt M.pk_fail [] []
 let incl t ign = pt M.pk_include [t; (if ign then 1 else 0)] []
 let block b body = pt M.pk_block [b] body
@@ -28,7 +29,7 @@ let rec print_tree (b : Buffer.t) (t : M.pool_tree) =
   let p i = match List.nth_opt pl i with Some n -> int_of_n n | None -> 0 in
   let body () = List.iter (print_tree b) cs in
   if k = M.pk_text then Buffer.add_string b (Printf.sprintf "T%d;" (p 0))
-  else if k = M.pk_var then Buffer.add_string b (Printf.sprintf "{{ v%d }}" (p 0))
+  else if k = M.pk_var then Buffer.add_string b (Printf.sprintf (if p 1 <> 0 then "{{ v%d|verifid }}" else "{{ v%d }}") (p 0))
   else if k = M.pk_fail then Buffer.add_string b "{{ 1|verifboom }}"
   else if k = M.pk_include then
     Buffer.add_string b (Printf.sprintf "{%% include 't%d'%s %%}" (p 0) (if p 1 <> 0 then " ignore missing" else ""))
@@ -158,7 +159,7 @@ let rec gen_body (r : rng) ~(rank : int) ~(depth : int) ~(blocks : bool) : M.poo
     match wpick r [ 30, `Text; 18, `Var; (if depth < 2 then 10 else 0), `If; (if rank < 3 then 14 else 0), `Include;
                     (if rank < 3 then 10 else 0), `Call; 3, `Fail; (if blocks && depth < 2 then 10 else 0), `Block ] with
     | `Text -> fresh_text ()
-    | `Var -> var (rint r 4)
+    | `Var -> if rbool r then var (rint r 4) else varf (rint r 4)
     | `If -> if_ (rint r 4) (gen_body r ~rank ~depth:(depth + 1) ~blocks)
     | `Include ->
         let t = wpick r [ (if rank < 1 then 3 else 0), 1; (if rank < 2 then 6 else 0), 2; 2, 3; 2, 9; 1, 4 ] in
@@ -185,7 +186,7 @@ let gen_src (r : rng) ~(name : int) : M.pool_src =
     | 3 ->
         List.concat (List.init (1 + rint r 2) (fun i ->
           [ macro (i + 1) (List.init (1 + rint r 3) (fun _ ->
-              match rint r 4 with 0 -> var 0 | 1 -> var (1 + rint r 3) | 2 -> if_ 0 [ fresh_text () ] | _ -> fresh_text ())) ]))
+              match rint r 5 with 0 -> var 0 | 1 -> var (1 + rint r 3) | 2 -> if_ 0 [ fresh_text () ] | 3 -> varf (rint r 4) | _ -> fresh_text ())) ]))
         @ (if rint r 2 = 0 then [ fresh_text () ] else [])
         @ (if rint r 5 = 0 then [ block 1 [ fresh_text () ] ] else [])
     | _ -> gen_body r ~rank:3 ~depth:1 ~blocks:false in
